@@ -192,4 +192,77 @@ Section Top.
     destruct (response_fidelity s (f (map vnorm args)) fuel Hwf Hresp Hr Hf2) as [H1 H2].
     eexists. split; [apply request_fidelity; assumption|]. split; [exact H1|]. split; [reflexivity|exact H2].
   Qed.
+  (** ** MessagePackRpc: positional parameters in, [1, 0, nil, out_message] out *)
+  Fixpoint rpc_args_ok (ffs : list dfield) (fs : list dval) : Prop :=
+    match ffs, fs with
+    | f :: r, x :: s0 =>
+        (x = DNone -> dmulti f = false /\ (df_nillable f = true \/ c_soft c = false))
+        /\ rpc_args_ok r s0
+    | _, _ => True
+    end.
+
+  Lemma rpc_args_ok_in ffs : forall fs f x,
+    rpc_args_ok ffs fs -> In (f, x) (combine ffs fs) -> x = DNone ->
+    dmulti f = false /\ (df_nillable f = true \/ c_soft c = false).
+  Proof.
+    induction ffs as [|g r IH]; intros [|y s0] f x H Hin; cbn [combine In] in Hin; try tauto.
+    cbn [rpc_args_ok] in H. destruct H as [H1 H2]. destruct Hin as [E|Hin].
+    - injection E as <- <-. exact H1.
+    - eapply IH; eauto.
+  Qed.
+
+  Theorem rpc_request_fidelity st msgid sigs s args fuel :
+    c_iw c = true ->
+    wf_universe (ext_universe U s) = true ->
+    find_sig sigs (sg_name s) = Some s ->
+    st_text_bin st = false ->
+    members_conf c (ext_universe U s) false (sg_params s) args = true ->
+    rpc_args_ok (sg_params s) args ->
+    (vdepth (DObj (in_cid U) args) <= fuel)%nat ->
+    rpc_request c U fuel sigs (srpc_req c U st msgid s args) = SCall (map vnorm args).
+  Proof.
+    intros Hiw Hwf Hfind Hst Hm Hok Hf. set (U' := ext_universe U s) in *.
+    pose proof (wf_cls U' (in_cid U) _ Hwf (ext_flat_in s)) as Hcw. unfold cls_wf in Hcw.
+    fold U' in Hcw. unfold U' in Hcw at 1 2. rewrite ext_flat_in, ext_name_in in Hcw.
+    apply andb_true_iff in Hcw as [_ Hsn].
+    unfold rpc_request, srpc_req. cbn [iter_doc]. unfold rpc_go. cbn [num_of].
+    assert (Hname : match skey c st (sg_name s) with
+                    | JStr s0 => Some s0
+                    | JBytes b => utf8_dec b
+                    | _ => None
+                    end = Some (sg_name s)).
+    { unfold skey. destruct (msgpack c && st_key_bin st); [|reflexivity]. apply utf8_bytes_dec, Hsn. }
+    rewrite Hname, Hfind. fold U'. rewrite spositional_eq.
+    pose proof (d2o_positional c U' false st (leaf_dec c) Hwf (fun E => ltac:(discriminate E))
+                               (fun nillable k l => leaf_dec_spec c st nillable k l Hst)
+                               (leaf_dec_null c) (norm_key_spec c st) (key_name_spec c st)
+                               (in_cid U) args (sg_params s) fuel Hiw (ext_flat_in s)) as HD.
+    rewrite mconf_eq in HD. specialize (HD Hm (fun f x Hin E => rpc_args_ok_in _ _ f x Hok Hin E) Hf).
+    unfold d2o. rewrite HD. reflexivity.
+  Qed.
+
+  Theorem rpc_response_fidelity s rets fuel :
+    c_iw c = true ->
+    wf_universe (ext_universe U s) = true ->
+    members_conf c (ext_universe U s) false (sg_results s) rets = true ->
+    (2 * vdepth (DObj (out_cid U) rets) + 1 <= fuel)%nat ->
+    rpc_response c U fuel s rets = Ok (srpc_resp c U spyne_style s rets)
+    /\ srpc_resp_dec c U fuel s (srpc_resp c U spyne_style s rets) = Ok (map vnorm rets).
+  Proof.
+    intros Hiw Hwf Hm Hf. set (U' := ext_universe U s) in *.
+    pose proof (obj_conf U' false (out_cid U) _ rets (ext_flat_out s) Hm) as Hc.
+    assert (Hresp : negb (c_list c) || c_iw c = true) by (rewrite Hiw; apply orb_true_r).
+    split.
+    - unfold rpc_response, srpc_resp. fold U'.
+      rewrite (tdv_object c U' false spyne_style Hwf (fun E => ltac:(discriminate E))
+                          (leaf_enc_spec c) (mkkey_spec c) Hresp (out_cid U) rets fuel Hc ltac:(lia)).
+      reflexivity.
+    - unfold srpc_resp_dec, srpc_resp. fold U'.
+      rewrite (d2o_object c U' false spyne_style (sleaf_dec c) Hwf (fun E => ltac:(discriminate E))
+                          (fun nillable k l => sleaf_dec_spec c spyne_style nillable k l)
+                          (fun nillable k _ => sleaf_dec_null c nillable k)
+                          (norm_key_spec c spyne_style) (key_name_spec c spyne_style)
+                          (out_cid U) (out_cid U) rets fuel Hc ltac:(lia)).
+      cbn [bind]. rewrite vnorm_obj. reflexivity.
+  Qed.
 End Top.
